@@ -52,6 +52,15 @@ def make_case(rng, idx):
         fname, (k1, k2), kwargs = name, prims.FUNCTIONS[name], {}
     sc = prims.Scene(rng, structured=bool(rng.random() < 0.8))
     p1 = prims.make(k1, sc); p2 = prims.make(k2, sc)
+    sc.contact = False
+    if rng.random() < 0.25:
+        # contact class: a point of the first primitive coincides with a point of the second (true distance 0,
+        # lines piercing triangles/rectangles/boxes, primitives touching at a feature)
+        try:
+            p1 = prims.translated(p1, prims.some_point_of(p2, rng) - prims.some_point_of(p1, rng))
+            sc.contact = True
+        except Exception:  # noqa: BLE001
+            pass
     return name, fname, kwargs, sc, p1, p2
 
 
@@ -63,8 +72,15 @@ def run_case(rng, idx, tier):
     if name not in _seen:
         _seen.add(name); ev["functions_exercised"] = 1
     band = prims.in_band(p1, p2)
-    key0 = {"fn": name, "structured": sc.structured, "band": band}
-    rec = {"cls": "%s|%s" % (name, "structured" if sc.structured else "generic"), "nontrivial": sc.structured,
+    key0 = {"fn": name, "structured": sc.structured, "band": band, "sliver_triangle": prims.has_sliver(p1, p2)}
+    if p2.kind == "circle":
+        # mechanism predicate for K5: a query point within sqrt(epsilon)=1e-3 (absolute) of the circle's axis
+        cir = p2.orc
+        qs = [np.asarray(a, float) for a in p1.args if isinstance(a, np.ndarray) and a.shape == (3,)][:2] if p1.kind in ("point", "segment") else []
+        rho = [float(np.linalg.norm((q - cir.c) - ((q - cir.c) @ cir.n) * cir.n)) for q in qs]
+        key0["query_point_near_circle_axis"] = bool(rho and min(rho) < 2e-3)
+    rec = {"cls": "%s|%s%s" % (name, "structured" if sc.structured else "generic", "|contact" if sc.contact else ""),
+           "nontrivial": sc.structured or sc.contact,
            "sig": repr((name, p1.describe(), p2.describe())),
            "sample": {"fn": name, "kwargs": kwargs, "p1": p1.describe(), "p2": p2.describe()}}
     try:
